@@ -135,9 +135,19 @@ func (s *v6Server) GetLeases(flags GetLeasesFlags) (leases []*dhcpsvc.Lease) {
 	return leases
 }
 
-// getLeasesRef returns the actual leases slice.  For internal use only.
-func (s *v6Server) getLeasesRef() []*dhcpsvc.Lease {
-	return s.leases
+// getLeasesRef returns clones of all leases, including the expired ones.  For
+// internal use only.  It is safe for concurrent use and must not be called
+// with s.leasesLock held.
+func (s *v6Server) getLeasesRef() (leases []*dhcpsvc.Lease) {
+	s.leasesLock.Lock()
+	defer s.leasesLock.Unlock()
+
+	leases = make([]*dhcpsvc.Lease, 0, len(s.leases))
+	for _, l := range s.leases {
+		leases = append(leases, l.Clone())
+	}
+
+	return leases
 }
 
 // FindMACbyIP implements the [Interface] for *v6Server.
@@ -230,9 +240,9 @@ func (s *v6Server) AddStaticLease(l *dhcpsvc.Lease) (err error) {
 	}
 
 	s.addLease(l)
-	s.conf.notify(LeaseChangedDBStore)
 	s.leasesLock.Unlock()
 
+	s.conf.notify(LeaseChangedDBStore)
 	s.conf.notify(LeaseChangedAddedStatic)
 
 	return nil
@@ -288,8 +298,8 @@ func (s *v6Server) RemoveStaticLease(l *dhcpsvc.Lease) (err error) {
 		s.leasesLock.Unlock()
 		return err
 	}
-	s.conf.notify(LeaseChangedDBStore)
 	s.leasesLock.Unlock()
+	s.conf.notify(LeaseChangedDBStore)
 	s.conf.notify(LeaseChangedRemovedStatic)
 	return nil
 }
@@ -394,11 +404,11 @@ func (s *v6Server) reserveLease(mac net.HardwareAddr) *dhcpsvc.Lease {
 }
 
 func (s *v6Server) commitDynamicLease(l *dhcpsvc.Lease) {
-	l.Expiry = time.Now().Add(s.conf.leaseTime)
-
 	s.leasesLock.Lock()
-	s.conf.notify(LeaseChangedDBStore)
+	l.Expiry = time.Now().Add(s.conf.leaseTime)
 	s.leasesLock.Unlock()
+
+	s.conf.notify(LeaseChangedDBStore)
 	s.conf.notify(LeaseChangedAdded)
 }
 
